@@ -104,10 +104,16 @@ func (r Result) Panicked() bool {
 	return strings.Contains(all, "panic:") || strings.Contains(all, "fatal error:") || strings.Contains(all, "goroutine 1 [")
 }
 
+// MinTimeout is the shortest time limit Run applies to a child.
+const MinTimeout = 180 * time.Second
+
 // Run starts the child and waits for it (or kills it at the timeout).
 func Run(c Cmd) Result {
-	if c.Timeout == 0 {
-		c.Timeout = 30 * time.Second
+	// The children do milliseconds of work. A time limit exists only to end a genuine hang, so it
+	// is never below MinTimeout: on a loaded machine (dozens of compilers and test shards at once)
+	// a child has been seen to take more than 30 s, and slowness must never read as a failure.
+	if c.Timeout < MinTimeout {
+		c.Timeout = MinTimeout
 	}
 	ctx, cancel := context.WithTimeout(context.Background(), c.Timeout)
 	defer cancel()
